@@ -644,7 +644,7 @@ func e4NilFields(e *e4Engine, funcs []*ssa.Function, res *e4Result) {
 				}
 				dom := false
 				for _, s := range stores {
-					if instrDominates(s, r) {
+					if instrDominates(s, r) && storedNonNilAt(s, r) {
 						dom = true
 					}
 				}
@@ -1107,4 +1107,55 @@ func e7Recursion(c *Ctx, rule string, funcs []*ssa.Function) {
 		}
 	}
 	r.Extra["recursion_cycles"] = len(sccs)
+}
+
+// storedNonNilAt: the value a decoder stored into a pointer field is known non-nil at the success return r. A pointer
+// that came back from a call together with an error is only known non-nil where that error is known nil: r hands the
+// same error on (success exactly when it is nil), or r lies behind the error's nil edge. A return that reports success
+// on some value of the error (`if errors.Is(err, X) { return nil }`) accepts the nil pointer the callee returned with it.
+func storedNonNilAt(s *ssa.Store, r *ssa.Return) bool {
+	ex, ok := s.Val.(*ssa.Extract)
+	if !ok {
+		return true
+	}
+	call, ok := ex.Tuple.(*ssa.Call)
+	if !ok {
+		return true
+	}
+	sig := call.Call.Signature()
+	n := sig.Results().Len()
+	if n < 2 || !isErrorType(sig.Results().At(n-1).Type()) || ex.Index == n-1 {
+		return true
+	}
+	errEx := extractOf(call, n-1)
+	if errEx == nil {
+		return true // dropped error: judged by the maybe-nil-result rule
+	}
+	// the error may pass through a local cell (var err error; x, err = f())
+	sameErr := func(v ssa.Value) bool {
+		if v == ssa.Value(errEx) {
+			return true
+		}
+		if ph, ok := v.(*ssa.Phi); ok {
+			for _, e := range ph.Edges {
+				if e != ssa.Value(errEx) {
+					return false
+				}
+			}
+			return true
+		}
+		return false
+	}
+	if len(r.Results) > 0 && sameErr(r.Results[len(r.Results)-1]) {
+		return true
+	}
+	fn := r.Parent()
+	for _, b := range fn.Blocks {
+		if iff := ifOf(b); iff != nil {
+			if nilE, _, ok := nilEdgesOf(iff, func(y ssa.Value) bool { return y == ssa.Value(errEx) }); ok && mustPassEdges(fn, r.Block(), nilE) {
+				return true
+			}
+		}
+	}
+	return false
 }
